@@ -80,6 +80,10 @@ func (d *Provider) Block() {
 		return
 	}
 	for key, defaultVal := range d.defaultInstances {
+		if _, ok := d.factories[key]; ok {
+			// an explicit factory wins over a default instance (as an explicit instance does)
+			continue
+		}
 		if _, ok := d.instances[key]; !ok {
 			if d.autoclean {
 				delete(d.defaultFactories, key)
